@@ -16,6 +16,10 @@ class Ws:
 def damaged_workspaces(rng, n):
     out = []
     alpha = p_syntax.CORE + p_syntax.EXTRA
+    # fixed first: the two recorded ways the process dies on well-formed input (known findings, replayed on every run)
+    out.append(Ws([("/w/p/src/a.gleam", "pub type A = List(A)\n\npub fn f(x: A) {\n  x\n}\n"), ("/w/p/gleam.toml", 'name = "p"\n')], "recursive-alias"))
+    out.append(Ws([("/w/p/src/a.gleam", "import b.{g}\npub fn f() {\n  g()\n}\n"), ("/w/p/src/b.gleam", "import a.{f}\npub fn g() {\n  f()\n}\n"),
+                   ("/w/p/gleam.toml", 'name = "p"\n')], "import-rewired"))
     for i in range(n):
         k = i % 9
         if k == 8:
